@@ -425,7 +425,7 @@ def run(ctx):
         insts = ig.batch(3)
         if isinstance(s0, dict) and rng.random() < 0.5:
             arr = R.arrange(rng, d, s0)
-            if arr is not None:
+            if arr is not None and R.arrangement_ok(arr):
                 try:
                     ok = impl.accepts(d, arr.schema)
                 except Exception:
